@@ -31,6 +31,15 @@ func sleepSalt(rng *core.Rng) string {
 
 // ConcurrentPackage generates one package with n programs drawn from the template families.
 func ConcurrentPackage(rng *core.Rng, name string, n int) *ConcPackage {
+	return ConcurrentPackageFrom(rng, name, n, -1)
+}
+
+// NumConcTemplates is the number of template families.
+const NumConcTemplates = 18
+
+// ConcurrentPackageFrom: with first >= 0 the i-th case uses template (first+i) mod NumConcTemplates
+// (a sweep over packages then covers every template), with first < 0 templates are drawn at random.
+func ConcurrentPackageFrom(rng *core.Rng, name string, n int, first int) *ConcPackage {
 	var b strings.Builder
 	fmt.Fprintf(&b, "package %s\n\nimport (\n\t\"sync\"\n\n\t\"github.com/goose-lang/goose/machine\"\n)\n\n", name)
 	b.WriteString(`type Acc struct {
@@ -105,6 +114,52 @@ func (b *Box) waitReady() uint64 {
 }
 
 // synchronisation objects passed as parameters
+// Mutex is an instrumented lock that counts acquisitions; WaitGroup a hand-built latch. They only share
+// their names with the sync types: their own methods must be what runs.
+type Mutex struct {
+	mu *sync.Mutex
+	n  uint64
+}
+
+func NewMutex() *Mutex {
+	return &Mutex{mu: new(sync.Mutex)}
+}
+
+func (m *Mutex) Lock() {
+	m.mu.Lock()
+	m.n = m.n + 1
+}
+
+func (m *Mutex) Unlock() {
+	m.mu.Unlock()
+}
+
+type WaitGroup struct {
+	mu   *sync.Mutex
+	c    *sync.Cond
+	left uint64
+}
+
+func NewWaitGroup(n uint64) *WaitGroup {
+	mu := new(sync.Mutex)
+	return &WaitGroup{mu: mu, c: sync.NewCond(mu), left: n}
+}
+
+func (w *WaitGroup) Done() {
+	w.mu.Lock()
+	w.left = w.left - 1
+	w.c.Broadcast()
+	w.mu.Unlock()
+}
+
+func (w *WaitGroup) Wait() {
+	w.mu.Lock()
+	for w.left > 0 {
+		w.c.Wait()
+	}
+	w.mu.Unlock()
+}
+
 func worker(mu *sync.Mutex, c *sync.Cond, wg *sync.WaitGroup, p *uint64, d uint64) {
 	mu.Lock()
 	*p = *p + d
@@ -117,7 +172,10 @@ func worker(mu *sync.Mutex, c *sync.Cond, wg *sync.WaitGroup, p *uint64, d uint6
 	cp := &ConcPackage{Package: &Package{Name: name, Features: map[string]int{}}, Info: map[string]ConcCase{}}
 	for i := 0; i < n; i++ {
 		cn := fmt.Sprintf("case_c%d", i)
-		k := rng.Intn(16)
+		k := rng.Intn(NumConcTemplates)
+		if first >= 0 {
+			k = (first + i) % NumConcTemplates
+		}
 		var body string
 		var det bool
 		var tmpl string
@@ -259,6 +317,34 @@ func worker(mu *sync.Mutex, c *sync.Cond, wg *sync.WaitGroup, p *uint64, d uint6
 				fmt.Fprintf(&s, "\tgo func() {\n%s\t\tb.put(%d)\n\t}()\n", sleepSalt(rng), c1*(t+1))
 			}
 			fmt.Fprintf(&s, "\treturn b.waitCount(%d)\n", nth)
+			body = s.String()
+		case 16:
+			// user-defined types that share the names of the sync types
+			tmpl, det = "user-types-named-like-sync", true
+			var s strings.Builder
+			fmt.Fprintf(&s, "\tm := NewMutex()\n\twg := NewWaitGroup(%d)\n\tvar total uint64 = 0\n", nth)
+			for t := 0; t < nth; t++ {
+				fmt.Fprintf(&s, "\tgo func() {\n%s\t\tm.Lock()\n\t\ttotal = total + %d\n\t\tm.Unlock()\n\t\twg.Done()\n\t}()\n", sleepSalt(rng), c1*(t+1))
+			}
+			s.WriteString("\twg.Wait()\n\tm.Lock()\n\tr := total*100 + m.n\n\tm.Unlock()\n\treturn r\n")
+			body = s.String()
+		case 17:
+			// WaitGroup armed once with a delta other than 1 (literal, computed, len)
+			tmpl, det = "wg-add-delta", true
+			var s strings.Builder
+			s.WriteString("\tmu := new(sync.Mutex)\n\twg := new(sync.WaitGroup)\n\tvar total uint64 = 0\n")
+			switch rng.Intn(3) {
+			case 0:
+				fmt.Fprintf(&s, "\twg.Add(%d)\n", nth)
+			case 1:
+				fmt.Fprintf(&s, "\txs := make([]uint64, %d)\n\twg.Add(len(xs))\n", nth)
+			default:
+				fmt.Fprintf(&s, "\tvar n uint64 = %d\n\twg.Add(int(n + 1))\n", nth-1)
+			}
+			for t := 0; t < nth; t++ {
+				fmt.Fprintf(&s, "\tgo func() {\n%s\t\tmu.Lock()\n\t\ttotal = total + %d\n\t\tmu.Unlock()\n\t\twg.Done()\n\t}()\n", sleepSalt(rng), c2*(t+1))
+			}
+			s.WriteString("\twg.Wait()\n\treturn total\n")
 			body = s.String()
 		case 10:
 			// nested goroutines and a parameter captured; two locks taken in a fixed order
